@@ -3,7 +3,7 @@
 set -e
 cd "$(dirname "$0")"
 export CARGO_NET_OFFLINE=true
-(cd lean && lake build Parsley parsley_model)
-cp /repo/Cargo.lock harness/Cargo.lock 2>/dev/null || true
-(cd harness && cargo build --offline --bin corr)
+python3 checklib/regen_index.py
+(cd lean && lake build)
+(cd harness && cargo build --offline --bins)
 echo setup done
